@@ -193,9 +193,13 @@ __strpd_card(struct strpd_s *d, const char *sp, struct dt_spec_s s, char **ep)
 		break;
 	case DT_SPFL_N_DSTD:
 		d->y = strtoi_lim(sp, &sp, DT_MIN_YEAR, DT_MAX_YEAR);
-		sp++;
+		if (d->y < 0 || !*sp++) {
+			break;
+		}
 		d->m = strtoi_lim(sp, &sp, 0, GREG_MONTHS_P_YEAR);
-		sp++;
+		if (d->m < 0 || !*sp++) {
+			break;
+		}
 		d->d = strtoi_lim(sp, &sp, 0, 31);
 		res = 0 - (d->y < 0 || d->m < 0 || d->d < 0);
 		break;
@@ -535,6 +539,10 @@ __strfd_card(
 			/* it's just bollocks */
 			return 0U;
 		}
+		if (UNLIKELY(bsz < (size_t)prec)) {
+			/* no room */
+			return 0U;
+		}
 		res = ui9999topstr(buf, prec, y, 4U, padchar(s));
 		break;
 	}
@@ -637,10 +645,18 @@ __strfd_card(
 		}
 		break;
 	case DT_SPFL_S_QTR:
+		if (UNLIKELY(bsz < 2U)) {
+			/* no room */
+			break;
+		}
 		buf[res++] = 'Q';
 		buf[res++] = (char)(dt_get_quarter(that) + '0');
 		break;
 	case DT_SPFL_N_QTR:
+		if (UNLIKELY(bsz < 2U)) {
+			/* no room */
+			break;
+		}
 		buf[res++] = '0';
 		buf[res++] = (char)(dt_get_quarter(that) + '0');
 		break;
@@ -675,7 +691,7 @@ __strfd_card(
 					buf, bsz, yd,
 					3 - (s.pad == DT_SPPAD_OMIT) << 1U,
 					padchar(s));
-			} else {
+			} else if (bsz >= 3U) {
 				buf[res++] = '0';
 				buf[res++] = '0';
 				buf[res++] = '0';
